@@ -15,7 +15,7 @@ claim("C07",
 
 claim("C08",
       "SSA path/event dataflow on Stop, IngestRows/Flush, handleFlush and the workers; lock facts; channel-operation scan of the write-path region",
-      "Static necessary conditions of Stop's contract: ErrEngineStopped on the stopped edge under the lock, nil return only after the workers-done signal (closed only after wg.Wait, Add(2) before both starts, deferred Done in each worker), deadline armed before the state lock, a direct flushCancel call before every non-nil return (the repaired defect D2), every store call in handleFlush behind the entry ctx.Err() check on flushCtx, every send in the write path abandonable. Timing ('by roughly that deadline') is not decided.",
+      "Static necessary conditions of Stop's contract: ErrEngineStopped on the stopped edge under the lock, nil return only after the workers-done signal (closed only after wg.Wait, Add(2) before both starts, deferred Done in each worker), deadline armed before the state lock, a direct flushCancel call before every non-nil return (the repaired defect D2), every store call in handleFlush behind the entry ctx.Err() check on flushCtx, every send in the write path abandonable, every answer site of the write path live or dead with the flush context (R5). Timing ('by roughly that deadline') is not decided.",
       TB)
 
 claim("C09",
@@ -25,7 +25,7 @@ claim("C09",
 
 claim("C10",
       "SSA path/event dataflow on processIngestRequest and ingestWorker, disjunctive over the shouldFlush flag (tracked-boolean valuations), with comparison normalisation and counter provenance",
-      "Trigger wiring: each of the five limits has a non-strict comparison on the matching counter whose true edge always reaches flushBufferedData before return (decided per flag valuation), counters advance once per buffered row, the ticker case leads from elapsed >= MaxBufferedTime to flushBufferedData before the next select, bufferStartTime is set before rows are buffered and reset only at flush. The latency bound (wall clock) is not decided.",
+      "Trigger wiring: each of the five limits has a non-strict comparison on the matching counter whose true edge always reaches flushBufferedData before return (decided per flag valuation), each counter's only write in processIngestRequest is one self-add inside the per-row loop (row counters +1, both byte counters + the same length-prefixed size), the ticker case leads from elapsed >= MaxBufferedTime to flushBufferedData before the next select, bufferStartTime is set before rows are buffered and reset only at flush. The latency bound (wall clock) is not decided.",
       TB)
 
 claim("C13",
@@ -35,12 +35,12 @@ claim("C13",
 
 claim("C14",
       "lock-discipline dataflow (guarded-by table for MemoryMetaStore), pending/kill failure-edge dataflow over the query region with closure summaries, interface-implementation scan of MetaStore.Update",
-      "Schedule-independent necessary conditions of snapshot consistency: MemoryMetaStore.files only under mu, Update one write-locked critical section, snapshot under RLock, no yield with mu possibly held; every failure edge in the query region (open, row read, filter read/plan, scan, materialise, iterator error) is recorded before return unless the query is cancelled; every shipped MetaStore.Update consumes both operation lists — known finding F1: FileSystemDataStore.Update ignores writes. Interleavings are not enumerated.",
+      "Schedule-independent necessary conditions of snapshot consistency: MemoryMetaStore.files only under mu, Update one write-locked critical section, snapshot under RLock, no yield with mu possibly held and the iterator yields from one snapshot taken under RLock; every failure edge in the query region (open, row read, filter read/plan, scan, materialise, iterator error) is recorded before return unless the query is cancelled; every shipped MetaStore.Update consumes both operation lists — known finding F1: FileSystemDataStore.Update ignores writes. Interleavings are not enumerated.",
       TB)
 
 claim("C15",
       "SSA path/event dataflow on renameOnCloseFile.Close/Abort, syncDir, CreateFile, TombstoneFile, the directory-scan iterator and Update; constant evaluation of open flags; string-constant provenance of paths",
-      "The publish protocol's ordering and cleanup obligations on every path: rename only after Sync-ok and Close-ok, success only after Rename-ok and directory fsync-ok, O_CREATE|O_EXCL on both creates with the reservation first and never left behind, scan yields only parsed .dat files, tombstone/abort remove every artifact. Commit atomicity/durability of Update: known findings F1 (writes ignored) and F2 (no directory fsync after unlink, errors dropped). Crash points are not enumerated (that needs execution).",
+      "The publish protocol's ordering and cleanup obligations on every path: rename only after Sync-ok and Close-ok, success only after Rename-ok and directory fsync-ok (the published flag is set only there and never cleared), O_CREATE|O_EXCL on both creates with the reservation first and never left behind, scan yields only parsed .dat files, tombstone/abort remove every artifact. Commit atomicity/durability of Update: known findings F1 (writes ignored) and F2 (no directory fsync after unlink, errors dropped). Crash points are not enumerated (that needs execution).",
       TB + " Assumes os.Rename/fsync semantics of POSIX filesystems.")
 
 claim("C16",
@@ -50,7 +50,7 @@ claim("C16",
 
 claim("C11",
       "per-iteration must-facts on loop back edges (SSA dataflow), loop-exit classification, value-identity/provenance checks on the copy and merge paths",
-      "Content preservation of merging through structural necessary conditions: every scanned row is indexed, length-prefixed from its own length, written and counted before the scan loop's back edge, the loop's other exits are error returns; every group member is loaded and scanned to its end, every merge group is copied or merged, every block and partition is collected/processed; the merged block keeps the grouping partition and the running union of minmax ranges (Min/Max unswapped, no member skipped); copied blocks are verified, written from the very bytes read at their recorded extent, re-indexed row by row, and keep all metadata but their location. Multiset equality itself is not decided.",
+      "Content preservation of merging through structural necessary conditions: every scanned row is indexed, length-prefixed from its own length, written and counted before the scan loop's back edge, the loop's other exits are error returns; every group member is loaded and scanned to its end, every merge group is copied or merged, every block and partition is collected/processed; the merged block keeps the grouping partition and the running union of minmax ranges (Min/Max unswapped, no member skipped); copied blocks are verified, written from the very bytes read at their recorded extent, re-indexed row by row, and keep all metadata but their location; the greedy grouping partitions each bucket (R6: seed index counts 0..len(bucket), joins only on the not-yet-grouped edge, every joined index marked before the loop moves on, every seed's group recorded); UpdateMinMaxIndex = (min,max) on every ordering (R5). Multiset equality itself is not decided.",
       TB)
 
 claim("C12",
@@ -60,27 +60,27 @@ claim("C12",
 
 claim("C17",
       "go/types struct comparison, composite-literal provenance, flag/compression case-table extraction (E5), SSA ordering dataflow and value-identity checks on the assembly paths",
-      "Self-description of written files: fileMetadataJSON mirrors FileMetadata and both footer directions copy every field (FileFilterSectionSize = length of the section written); presence bits and compression cases agree between writer and reader; assembly order body → finish (once) → footer → Close with nothing written after finish and the committed metadata being the footer's object; per block one value serves as bytes written, RowDataSize, offset increment and CRC input, RowDataOffset is taken before the increment, the region offset after the last block, counts from the same buffer. Byte-level round trips are left to the existing tests.",
+      "Self-description of written files: fileMetadataJSON mirrors FileMetadata and both footer directions copy every field (FileFilterSectionSize = length of the section written); presence bits and compression cases agree between writer and reader; assembly order body → finish (once) → footer → Close with nothing written after finish and the committed metadata being the footer's object; per block one value serves as bytes written, RowDataSize, offset increment and CRC input, RowDataOffset is taken before the increment, the region offset after the last block, counts from the same buffer; entries are indexed only after the whole batch validated (C06.R4). Byte-level round trips are left to the existing tests.",
       TB)
 
 claim("C18",
       "typestate (seal/mutate) dataflow with interprocedural mutates-parameter summaries, per-iteration must-facts, value-identity checks of ingest wiring",
-      "Index coverage: entry sets are never mutated after being sealed; every block appended to a file had its entries merged into the file-level set first (copied blocks: every row re-indexed) and file filters are built after the last block; block filters come from the set that indexed the block's rows; the indexing callback records a field entry per emission and token + field:token per token on both tokenizer paths, and the sized filter adds every entry; rows are grouped under PartitionFunc(row), buffers registered under their own partition, and (min,max) of row[index] feed the row's own buffer unswapped. The walker's enumeration itself is value-level and not decided.",
+      "Index coverage: entry sets are never mutated after being sealed; every block appended to a file had its entries merged into the file-level set first (copied blocks: every row re-indexed) and file filters are built after the last block; block filters come from the set that indexed the block's rows; the indexing callback records a field entry per emission and token + field:token per token on both tokenizer paths, and the sized filter adds every entry; rows are grouped under PartitionFunc(row), buffers registered under their own partition, and (min,max) of row[index] feed the row's own buffer unswapped through UpdateMinMaxIndex = (min,max) on every ordering (R6). The walker's enumeration itself is value-level and not decided.",
       TB)
 
 claim("C01",
       "who-may-call/ownership scans, sibling-agreement provenance checks, and abstract interpretation of the prune-level and row-level expression evaluators on all small trees × leaf truth assignments (E5), plus SSA path rules on the pruning points",
-      "Structural necessary conditions of 'no false negatives': one shared walker and leaf canonicaliser for indexing and verification (reference enumerator unreachable from production), entry sets written only by the indexing functions and filters built only from them; indexing and verification gate the same fast tokenizer path on the same configured tokenizer and delimiter; the pruning verdict is ≥ the row verdict for every small bloom tree and every leaf assignment, absent filters fail open, the regex field guard is at least as permissive as the compiled regex matcher and tests existence of the condition's own field; files/blocks are skipped only on a negative verdict and a chunk miss is an error. Walker/tokenizer value semantics, chunk arithmetic and hashing are not decided.",
+      "Structural necessary conditions of 'no false negatives': one shared walker and leaf canonicaliser for indexing and verification (reference enumerator unreachable from production), entry sets written only by the indexing functions and filters built only from them; indexing and verification gate the same fast tokenizer path on the same configured tokenizer and delimiter; the pruning verdict is ≥ the row verdict for every small bloom tree and every leaf assignment, absent filters fail open, the regex field guard is at least as permissive as the compiled regex matcher and tests existence of the condition's own field; files/blocks are skipped only on a negative verdict and a chunk miss is an error; the fast tokenizer's byte classifier covers exactly unicode.IsSpace on its interval partition (R7); entry sets never retain strings aliasing a pooled buffer (C03.R4). Walker/tokenizer value semantics, chunk arithmetic and hashing are not decided.",
       TB + " The abstract interpreter (absint.go) is part of the trusted base: it aborts (undecided) on any branch not determined by the abstract inputs.")
 
 claim("C02",
       "SSA path/event dataflow on the scan loop, flush and deliver (counter domain), channel-ownership scans, abstract interpretation of the prefilter evaluator and the compiled matcher on constant and small trees",
-      "Row-level exactness through structure: only rows on the true edge of matchRowBytes reach the batcher, materialised from the same scanned bytes; rowChan has one sender/closer chain; each batch is cleared before hand-off, sent at most once per path and exactly once before a nil return, counted once per send; the strict prefilter table (nil/empty/unknown/missing-metadata cases, And = all, Or = any) and the compiled matcher's And/Or/constant semantics hold on every small tree and assignment. Multiset equality against an oracle is not decided.",
+      "Row-level exactness through structure: only rows on the true edge of matchRowBytes reach the batcher, materialised from the same scanned bytes; rowChan has one sender/closer chain; each batch is cleared before hand-off, sent at most once per path and exactly once before a nil return, counted once per send; the matcher's per-row scratch is reset before every walk (R6); the strict prefilter table (nil/empty/unknown/missing-metadata cases, And = all, Or = any) and the compiled matcher's And/Or/constant semantics hold on every small tree and assignment. Multiset equality against an oracle is not decided.",
       TB)
 
 claim("C03",
       "value provenance of the materialisation argument, identifier-use scan for package unsafe, who-may-call scans, typestate (released-buffer) dataflow, defer-order check",
-      "Independence of returned rows (second sentence of the property): rows are materialised from a copying string conversion; package unsafe is confined to unsafeString, called only by indexing and matching, which return only verdicts; no instruction uses a pooled buffer after putScanBuffer on any path (locals kept in memory tracked by cell); the scan's buffer release is deferred before the batch flush's defer and never called directly; the pooled reader is used only by the query scan and filters are decoded by copying. JSON round-trip equality (first sentence) is not decided.",
+      "Independence of returned rows (second sentence of the property): rows are materialised from a copying string conversion; package unsafe is confined to unsafeString, called only by indexing and matching, which return only verdicts; no instruction uses a pooled buffer after putScanBuffer on any path (locals kept in memory tracked by cell); the scan's buffer release is deferred before the batch flush's defer and never called directly; the pooled reader is used only by the query scan and filters are decoded by copying; the materialisation region references no package-level reference-typed global (R5). JSON round-trip equality (first sentence) is not decided.",
       TB)
 
 claim("C04",
@@ -100,12 +100,12 @@ claim("C27",
 
 claim("C20",
       "lock-discipline and path/event dataflow on Next/finish/terminate/Close, channel-operation scan of the query region, ordering dataflow on the teardown goroutine",
-      "The cursor's terminal state through structure: err is written only under mu on the not-yet-finalized edge with finalized set (first finalizer wins); Next returns false only after finish/terminate or the iterDone test, finish marks iteration done and cancels; Close is sync.Once-guarded, cancels before waiting for done and returns nil; terminate reads errors only after the pipeline stopped and wraps the caller's context error with %w; Results' shared fields are accessed under mu; every channel operation in query goroutines is abandonable (Done() case or default; one named exception); teardown runs in the order fileWorkers.Wait → close(blockJobs) → blockWorkers.Wait → closeAll → markWorkersDone. Interleavings are not enumerated.",
+      "The cursor's terminal state through structure: err is written only under mu on the not-yet-finalized edge with finalized set (first finalizer wins); Next returns false only after finish/terminate or the iterDone test, finish marks iteration done and cancels; Close is sync.Once-guarded, cancels before waiting for done and returns nil; terminate reads errors only after the pipeline stopped and wraps the caller's context error with %w; Results' shared fields are accessed under mu; every channel operation in query goroutines is abandonable (Done() case or default; one named exception); teardown runs in the order fileWorkers.Wait → close(blockJobs) → blockWorkers.Wait → closeAll → markWorkersDone; every context waited on, passed on or stored in a slot by the query's goroutines originates from Results.ctx (R7). Interleavings are not enumerated.",
       TB)
 
 claim("C21",
       "counter-domain and pending/kill dataflow with closure summaries (handles, references), goroutine/WaitGroup pairing scan, typestate of querySlot, guarded-by table of the handle pool",
-      "Release of query resources on every path: exactly one put/discard after each successful acquire (through the deferred health-flag closure or directly), every opened read handle closed or handed to a checked caller, every retain matched by a release or a successful job hand-off whose receiver defers the release first, every query goroutine paired with Add(1)/deferred Done (teardown goroutine excepted by name), every worker deferring slot.release with held tracking the semaphore token, pool fields under mu and no store I/O under the pool lock. That a store's Close really frees the handle is assumed.",
+      "Release of query resources on every path: exactly one put/discard after each successful acquire (through the deferred health-flag closure or directly), every opened read handle closed or handed to a checked caller, every retain matched by a release or a successful job hand-off whose receiver defers the release first, every query goroutine paired with Add(1)/deferred Done (teardown goroutine excepted by name), every worker deferring slot.release with held tracking the semaphore token, pool fields under mu and no store I/O under the pool lock; inside the pool each handle has exactly one fate (stored idle xor closed, discard closes synchronously, the lent handle leaves the idle set, detached idle sets are closed element by element — closes may go through wrappers proven to close once), and no goroutine is started on the query's call paths outside Query (R3, R6). That a store's Close really frees the handle is assumed.",
       TB)
 
 claim("C22",
@@ -115,20 +115,20 @@ claim("C22",
 
 claim("C23",
       "per-iteration counter dataflow (counter reset on entering a loop iteration), early-exit classification, composite-literal field checks, aggregation-edge checks in Stats",
-      "Exactly-once block statistics: one deferred stats record per scan job and no other; in the filter pass every iteration accounts for its block exactly once and every early exit is a cancellation or records all remaining blocks; skipped/unread entries carry no processed rows/bytes; scan counters advance once per scanned row and feed the scan's entry; Stats counts skipped xor processed, sums per-block values and reports the delivery counter. Numeric equality on real data is not decided.",
+      "Exactly-once block statistics: one deferred stats record per scan job and no other; in the filter pass every iteration accounts for its block exactly once and every early exit is a cancellation or records all remaining blocks (unread ranges are the whole file before any accounting, blocks[i:] or blocks[i:i+1] for the loop's own index only); skipped/unread entries carry no processed rows/bytes; scan counters advance once per scanned row and feed the scan's entry; Stats counts skipped xor processed, sums per-block values and reports the delivery counter, which advances by len(batch) once per delivered batch (C02.R3). Numeric equality on real data is not decided.",
       TB)
 
 claim("C24",
-      "forbid/require reachability rules in the SSA dataflow (may-facts at dispatch and I/O sites), who-may-call/send scans, extent provenance",
-      "Effectiveness of pruning: no file-job dispatch from the negative file-level edge or an empty prefilter result; block-filter I/O only with bloom conditions and sections to read; a block whose filters were read is scanned only on the survived edge; row data read only by the block scan fed only from the survivor loop; scan and filter reads use the block's own declared extents after validation. Request counts on real layouts are left to the existing tests.",
+      "forbid/require reachability rules in the SSA dataflow (may-facts at dispatch and I/O sites), who-may-call/send scans, extent provenance, abstract interpretation (E5) of evaluateBloomFilters against its specification",
+      "Effectiveness of pruning: no file-job dispatch from the negative file-level edge or an empty prefilter result; block-filter I/O only with bloom conditions and sections to read; a block whose filters were read is scanned only on the survived edge; row data read only by the block scan fed only from the survivor loop; scan and filter reads use the block's own declared extents after validation; hasSections is a latch over the candidate blocks (R5); evaluateBloomFilters equals its specification on every small tree × membership × absent-filter mask, so whatever the present filters rule out is disqualified (R6). Request counts on real layouts are left to the existing tests.",
       TB)
 
 claim("C19",
-      "range checker: taint from decoded integers and metadata framing fields to allocation sizes and slice bounds, with dominating-guard search and sign analysis through +/− (E7); SSA path rules for verify-before-parse; comparison-table extraction for validate",
-      "Clean failure on malformed files through structure: every decoded length / framing field reaching a make, getScanBuffer or slice bound in the read path is bounded in the needed direction(s) by dominating comparisons (framing fields at allocations may take their upper bound from the validated-metadata facts); footer JSON, filter sections and row data are parsed/decompressed only after their CRC checks; ReadFileMetadata returns metadata only after CRC, version and validate; validate and validateFilterSection bound each framing field from below and, by subtraction, from above; planning/validation precedes any filter I/O; decompression is exact-length through io.ReadFull; failures are recorded (C14.R2). Third-party decoders' robustness is not decided; UncompressedSize is outside the quantified framing fields (observation in DESIGN.md).",
+      "range checker: taint from decoded integers and metadata framing fields to allocation sizes and slice bounds, with dominating-guard search and sign analysis through +/− (E7); linear bounds prover with store-resolved loads over the length-prefixed decoders and validators (E8); SSA path rules for verify-before-parse; comparison-table extraction for validate",
+      "Clean failure on malformed files through structure: every decoded length / framing field reaching a make, getScanBuffer or slice bound in the read path is bounded in the needed direction(s) by dominating comparisons (framing fields at allocations may take their upper bound from the validated-metadata facts); footer JSON, filter sections and row data are parsed/decompressed only after their CRC checks; ReadFileMetadata returns metadata only after CRC, version and validate; validate and validateFilterSection bound each framing field from below and, by subtraction, from above; planning/validation precedes any filter I/O; decompression is exact-length through io.ReadFull; failures are recorded (C14.R2); in the validators no sum or difference can wrap before it is compared (R8); in BlockRowScanner.Next, parseFilterSection, ReadFileMetadata and planBlockFilterReads every slice bound, index, fixed-width decode and allocation size is a linear consequence of the dominating checks, cursor advances included (R9). Third-party decoders' robustness is not decided; UncompressedSize is outside the quantified framing fields (observation in DESIGN.md).",
       TB)
 
 claim("C25",
-      "go/types shape checks of the exported query types, nil-vs-empty comparison scan, abstract interpretation (E5) of the flatten functions, And/Or constructors and builder call sequences",
-      "Expression trees and serialization through structure and abstract runs: every exported query type round-trips field for field (exported fields, no json:\"-\", no custom marshalers, omitempty only where nil/empty are indistinguishable — no evaluator compares such a slice with nil); each flatten function inlines exactly the children of same-type, condition-less nodes and keeps every other child in order; And/Or wrap the flattened list; builder sequences (implicit AND at Build, AND with the explicit tree after Match, MatchPrefilter installs the tree) produce the expected trees. The Field-then-Match discard is a semantic question and not claimed.",
+      "go/types shape checks of the exported query types, nil-vs-empty comparison scan, abstract interpretation (E5) of the flatten functions, And/Or constructors and builder call sequences, slice-origin (ownership) analysis of child lists",
+      "Expression trees and serialization through structure and abstract runs: every exported query type round-trips field for field (exported fields, no json:\"-\", no custom marshalers, omitempty only where nil/empty are indistinguishable — no evaluator compares such a slice with nil); each flatten function inlines exactly the children of same-type, condition-less nodes and keeps every other child in order; And/Or wrap the flattened list; builder sequences (implicit AND at Build, AND with the explicit tree after Match, MatchPrefilter installs the tree) produce the expected trees; every stored Children list is backed by an array allocated in the constructing call (R4: no two trees share mutable child storage). The Field-then-Match discard is a semantic question and not claimed.",
       TB + " Abstract runs cover the listed shapes only.")
